@@ -17,6 +17,20 @@ THEOREMS = [
     "Cv.bfs_layers_eq_dist",
     "Cv.bfs_completes",
     "Cv.bfs_config_independent",
+    "Cv.C01e.distLayer_transport",
+    "Cv.C01e.distLayer_transport_lift",
+    "Cv.C01e.compiled_routine_encode",
+    "Cv.C01e.encoded_orbit_encodings",
+    "Cv.C01e.encode_injective",
+    "Cv.C01e.encoded_bfs_layers_eq_dist",
+    "Cv.C01e.encoded_bfs_layers_eq_dist_orbit",
+    "Cv.C01e.encoded_bfs_layers_eq_dist_invClosed",
+    "Cv.C01e.encoded_bfs_single_word",
+    "Cv.C01e.encoded1d_bfs_eq",
+    "Cv.C01e.encoded_bfs_completes",
+    "Cv.C01e.plain_bfs_layers_eq_dist",
+    "Cv.C01e.encoded_bfs_width_independent",
+    "Cv.C01e.encoded_bfs_eq_plain",
 ]
 
 
@@ -136,7 +150,7 @@ def main():
         if "replay" in body or "case" in body:
             ck.guard(run_case, ck, body.get("case") or body["replay"]["case"])
         ck.finish(rule="replay of one recorded case")
-    ck.lean_obligations(["CvProps.C01", "CvProps.C17"], THEOREMS)
+    ck.lean_obligations(["CvProps.C01", "CvProps.C01e", "CvProps.C17"], THEOREMS)
     # corpus first
     corpus = json.load(open(os.path.join(VERIF, "harness", "corpus", "C01.json")))
     for case in corpus:
